@@ -26,6 +26,8 @@ type SpecCtx struct {
 	where    string
 	depth    int
 	snap     *loopSnap
+	inTrigger bool
+	oldVars  map[string]Term // parameter values inside old(): slices whose elements the callee mutates
 	cbinv    *FuncContract // contract whose `cbinv` clause interprets the abstract callback invariant (nil = abstract)
 }
 
@@ -314,9 +316,11 @@ func (c *SpecCtx) tr(e SExpr) Term {
 		var pats []string
 		for _, tr := range x.Trig {
 			var ps []string
+			c.inTrigger = true
 			for _, t := range tr {
 				ps = append(ps, c.tr(t).S)
 			}
+			c.inTrigger = false
 			pats = append(pats, ":pattern ("+strings.Join(ps, " ")+")")
 		}
 		for n, t := range saved {
@@ -362,10 +366,16 @@ func (c *SpecCtx) tr(e SExpr) Term {
 			i = c.coerce(i, base.Sort.Elem)
 			return Term{"(select " + base.S + " " + i.S + ")", sortBool}
 		case KMap:
+			// Go semantics: a missing key (or a nil map) reads as the zero value
 			st := c.state()
-			_, val := vc.mapHeaps(st, base.Sort)
+			dom, val := vc.mapHeaps(st, base.Sort)
 			i = c.coerce(i, base.Sort.Key)
-			return Term{"(select (select " + val.S + " " + base.S + ") " + i.S + ")", base.Sort.Elem}
+			in := "(select (select " + dom.S + " " + base.S + ") " + i.S + ")"
+			v := "(select (select " + val.S + " " + base.S + ") " + i.S + ")"
+			if c.inTrigger {
+				return Term{v, base.Sort.Elem} // patterns must be plain applications
+			}
+			return Term{sIte(sAnd(sNot(sEq(base.S, "0")), in), v, vc.U.zero(base.Sort.Elem)), base.Sort.Elem}
 		}
 		return c.errorf("cannot index %s", base.Sort.Name)
 	case *SSlice:
@@ -480,6 +490,11 @@ func (c *SpecCtx) trBinary(x *SBinary) Term {
 
 func (c *SpecCtx) trIdent(name string) Term {
 	vc := c.vc
+	if c.inOld && c.oldVars != nil {
+		if t, ok := c.oldVars[name]; ok {
+			return t
+		}
+	}
 	if t, ok := c.vars[name]; ok {
 		return t
 	}
@@ -689,6 +704,20 @@ func (c *SpecCtx) trCall(x *SCall) Term {
 		t := c.tr(x.Args[0])
 		c.cur, c.old, c.inOld = sc, so, si
 		return t
+	case "clientinv":
+		// abstract invariant over the state of the client that supplied the callbacks: interpreted by the
+		// caller's `clientinv = <expr>` clause, otherwise the ghost boolean $clientinv (owned by the callbacks)
+		if c.cbinv != nil && c.cbinv.ClientInvBody != nil {
+			sp, scf := c.pkg, c.cf
+			if f := vc.eng.fileOf[c.cbinv]; f != nil {
+				c.cf = f
+				c.pkg = vc.eng.pkgByPathOr(f.PkgPath, c.pkg)
+			}
+			r := c.tr(c.cbinv.ClientInvBody.Expr)
+			c.pkg, c.cf = sp, scf
+			return r
+		}
+		return vc.readVar(c.state(), vc.clientinvVar())
 	case "cbinv":
 		d := c.tr(x.Args[0])
 		if c.cbinv != nil && c.cbinv.CbInvBody != nil {
@@ -1085,6 +1114,23 @@ func (vc *VC) havocLocation(ctx *SpecCtx, st *State, m *Clause) {
 			vc.havocGhostVar(st, gv)
 			return
 		}
+		// a local variable of the unit under verification (e.g. one captured and assigned by a function literal
+		// whose effect is applied here)
+		if v, ok := st.names[x.Name]; ok {
+			if cur, ok := st.vars[v]; ok {
+				if vc.cellVars[v] {
+					s := vc.U.sortOf(v.Type())
+					nv := vc.fresh(v.Name(), s)
+					vc.typeInvariant(st, nv)
+					vc.storeRef(st, cur.S, s, nv.S)
+				} else {
+					nv := vc.fresh(v.Name(), cur.Sort)
+					vc.typeInvariant(st, nv)
+					st.vars[v] = nv
+				}
+				return
+			}
+		}
 		// a variable passed by reference is not expressible; a package-level variable:
 		if ctx.pkg != nil {
 			if v, ok := ctx.pkg.Types.Scope().Lookup(x.Name).(*types.Var); ok {
@@ -1139,6 +1185,14 @@ func (vc *VC) havocLocation(ctx *SpecCtx, st *State, m *Clause) {
 						st.heaps[hn] = Term{n, nil}
 						return
 					}
+				}
+				if hn, hs, ok := vc.ghostFieldHeapOfType(ctx, tt, sel.Sel); ok {
+					vc.heapGet(st, hn, hs, nil)
+					vc.nfresh++
+					n := fmt.Sprintf("%s!%d", smtName(hn), vc.nfresh)
+					vc.consts = append(vc.consts, fmt.Sprintf("(declare-const %s %s)", n, hs))
+					st.heaps[hn] = Term{n, nil}
+					return
 				}
 			}
 		}
@@ -1299,4 +1353,56 @@ func (vc *VC) havocGhostVar(st *State, gv *GhostVar) {
 	// make sure the initial symbol exists (so that old() sees the entry value)
 	vc.readGhostVar(vc.entry, gv)
 	st.vars[vc.eng.ghostVarObj[gv.Name]] = vc.fresh("gv_"+gv.Name, vc.ghostVarSort(gv))
+}
+
+
+// initGhostFields: an object allocated by the Go code itself (composite literal, new) starts with the zero value
+// in every ghost field declared for its type (convention of the contract language; constructors with contracts
+// state their own initial values).
+func (vc *VC) initGhostFields(st *State, obj Term) {
+	if obj.Sort == nil || obj.Sort.GoT == nil {
+		return
+	}
+	n := namedOf(obj.Sort.GoT)
+	if n == nil {
+		return
+	}
+	pkg := ""
+	if n.Obj().Pkg() != nil {
+		pkg = n.Obj().Pkg().Path()
+	}
+	ctx := &SpecCtx{vc: vc, vars: map[string]Term{}, pkg: vc.pkg, typeArgs: map[string]types.Type{}, where: "ghost init"}
+	for _, gf := range vc.eng.ghostFields[pkg+"."+n.Obj().Name()] {
+		fs := ctx.ghostFieldSort(obj, gf)
+		if fs == nil {
+			continue
+		}
+		hn := ghostHeapName(gf.Owner, gf.Name) + "_" + smtName(fs.Name)
+		hs := "(Array " + obj.Sort.Name + " " + fs.Name + ")"
+		h := vc.heapGet(st, hn, hs, nil)
+		vc.heapSet(st, hn, vc.bindHeap(hn, "(store "+h.S+" "+obj.S+" "+vc.U.zero(fs)+")"))
+	}
+}
+
+
+// ghostFieldHeapOfType: heap name and sort of ghost field `name` declared for objects of Go type t
+// (a struct type stands for pointers to it).
+func (vc *VC) ghostFieldHeapOfType(ctx *SpecCtx, t types.Type, name string) (string, string, bool) {
+	if t == nil {
+		return "", "", false
+	}
+	bt := t
+	if _, isStruct := t.Underlying().(*types.Struct); isStruct {
+		bt = types.NewPointer(t)
+	}
+	bs := vc.U.sortOf(bt)
+	gf := vc.eng.lookupGhostField(bs, name)
+	if gf == nil {
+		return "", "", false
+	}
+	fs := ctx.ghostFieldSort(Term{"0", bs}, gf)
+	if fs == nil {
+		return "", "", false
+	}
+	return ghostHeapName(gf.Owner, gf.Name) + "_" + smtName(fs.Name), "(Array " + bs.Name + " " + fs.Name + ")", true
 }
